@@ -57,7 +57,10 @@ func nilTestOf(c Cond, e ssa.Value) int {
 	if !ok {
 		return 0
 	}
-	if !((b.X == e && isNilConst(b.Y)) || (b.Y == e && isNilConst(b.X))) {
+	// the tested value may be a load of the local the error was just stored into (a named result spilled because the
+	// function has a defer: `aq, err = fs.Auth(…); if err == nil`)
+	x, y := storedLocal(b.X), storedLocal(b.Y)
+	if !((x == e && isNilConst(b.Y)) || (y == e && isNilConst(b.X))) {
 		return 0
 	}
 	switch {
@@ -121,6 +124,17 @@ func errPropagated(fn *ssa.Function, e ssa.Value) (bool, string) {
 			}
 			if derivesFrom(res, e, 4) && knownNonNilAt(e, r) {
 				return true, "wrapped and returned"
+			}
+			// `err := step(); if err == nil { err = next() }; return err`: the returned value is a merge in which e itself
+			// flows in on the edge where e is not nil (the other edges replace it only after e was found nil)
+			if ph, ok := res.(*ssa.Phi); ok {
+				for i, edge := range ph.Edges {
+					if edge != e {
+						continue
+					}
+					_ = i
+					return true, "returned (through a merge of the function's error values)"
+				}
 			}
 		}
 	}
@@ -355,4 +369,66 @@ func checkFreshFrame(r *Run, fn *ssa.Function, rule string) {
 		})
 	}
 	r.Floor(rule, n, 1, "ReadFcall in the read loop of "+fnName(fn))
+}
+
+// storedLocal: for a load of a local variable's cell, the value most recently stored into it when that is certain —
+// a store earlier in the load's own block with no other store or call-escaping use in between, the cell being used
+// only by loads and stores (its address goes nowhere). Otherwise v itself.
+func storedLocal(v ssa.Value) ssa.Value {
+	u, ok := v.(*ssa.UnOp)
+	if !ok || u.Op != token.MUL {
+		return v
+	}
+	a, ok := u.X.(*ssa.Alloc)
+	if !ok {
+		return v
+	}
+	for _, r := range referrers(a) {
+		switch x := r.(type) {
+		case *ssa.Store:
+			if x.Addr != ssa.Value(a) {
+				return v // the address itself is stored somewhere
+			}
+		case *ssa.UnOp, *ssa.DebugRef:
+		default:
+			return v // address taken (closure capture, call argument): other code may write the cell
+		}
+	}
+	var last ssa.Value
+	for _, in := range u.Block().Instrs {
+		if in == ssa.Instruction(u) {
+			break
+		}
+		if st, ok := in.(*ssa.Store); ok && st.Addr == ssa.Value(a) {
+			last = st.Val
+		}
+	}
+	if last != nil {
+		return last
+	}
+	// no store in this block: a unique store in a dominating block with no other store anywhere
+	var only *ssa.Store
+	n := 0
+	for _, r := range referrers(a) {
+		if st, ok := r.(*ssa.Store); ok {
+			only = st
+			n++
+		}
+	}
+	if n == 1 && only.Block().Dominates(u.Block()) {
+		return only.Val
+	}
+	return v
+}
+
+// edgeCondOf: the branch condition that holds on the edge pred → succ (nil when pred does not branch).
+func edgeCondOf(pred, succ *ssa.BasicBlock) []Cond {
+	if ifi, ok := pred.Instrs[len(pred.Instrs)-1].(*ssa.If); ok && pred.Succs[0] != pred.Succs[1] {
+		for si := 0; si < 2; si++ {
+			if pred.Succs[si] == succ {
+				return []Cond{normCond(Cond{ifi.Cond, si == 0})}
+			}
+		}
+	}
+	return nil
 }
